@@ -391,6 +391,22 @@ def _waits(chk, repo, folder, sc):
     chk.check(wit is None, "R6", f"{NMT}:NmtMaster.on_heartbeat | every frame notifies", f.loc(),
               f"a path handles a heartbeat without waking waiters: {path_text(wit) if wit else ''}")
 
+    # wait_for_heartbeat waits once and takes any wake-up for "a heartbeat arrived or the time is over": as long as it does not
+    # re-check in a loop, nobody but on_heartbeat may notify the condition
+    wh = repo.func(NMT, "NmtMaster.wait_for_heartbeat", "C11.R6")
+    from .common import enclosing
+    one_shot = any(not enclosing(wh.node, c, (ast.While, ast.For)) for c in find_calls(wh.node, ".wait") if dotted(c.func) == cond + ".wait")
+    if one_shot:
+        for cname, k in repo.mod(NMT, "C11.R6").classes.items():
+            for mname, m in k.methods.items():
+                if mname == "on_heartbeat":
+                    continue
+                for c in find_calls(m.node, ".notify_all") + find_calls(m.node, ".notify"):
+                    if (dotted(c.func) or "").startswith(cond + "."):
+                        chk.bad("R6", f"{NMT}:{cname}.{mname} | only a heartbeat wakes the waiters", m.loc(c),
+                                f"`{src(c)}` wakes a thread blocked in wait_for_heartbeat(), which waits once and reads every wake-up as heartbeat-or-timeout: it raises NmtError "
+                                f"although the time is not over and a heartbeat may still come")
+    chk.ok("R6", f"{NMT} | only on_heartbeat notifies state_update", NMT, f"wait_for_heartbeat waits {'once' if one_shot else 'in a loop'}")
     for fname in ("wait_for_heartbeat", "wait_for_bootup"):
         f = repo.func(NMT, f"NmtMaster.{fname}", "C11.R6")
         ff = ff_for(chk, f, "C11.R6")
